@@ -8,6 +8,7 @@ import (
 	"math/big"
 	"strings"
 
+	ethcommon "github.com/ethereum/go-ethereum/common"
 	ethcrypto "github.com/ethereum/go-ethereum/crypto"
 )
 
@@ -99,6 +100,36 @@ type genTenant struct {
 	denom  string
 	period uint64
 	mint   bool
+}
+
+// addresses a tenant may name as its token contract, or a record as its NFT contract on this chain:
+// the nine precompiles of the EVM fork, the extension precompiles the EVM parameters activate by default,
+// two extension addresses that are NOT active, and two addresses that hold no code
+var foreignContracts = []string{
+	"0x0000000000000000000000000000000000000001", "0x0000000000000000000000000000000000000002",
+	"0x0000000000000000000000000000000000000004", "0x0000000000000000000000000000000000000005",
+	"0x0000000000000000000000000000000000000009", "0x0000000000000000000000000000000000000100",
+	"0x0000000000000000000000000000000000000400", "0x0000000000000000000000000000000000000801",
+	"0x0000000000000000000000000000000000000804", "0x0000000000000000000000000000000000000800",
+	"0x0000000000000000000000000000000000000803", "0x00000000000000000000000000000000000000c1",
+	"0x000000000000000000000000000000000000dEaD",
+}
+
+// reservedAddress reports whether the EVM treats [hexAddr] as a static precompile under the genesis the harness
+// writes (Berlin set + the default active extensions): the history-side classification of a foreign contract,
+// taken from the address alone, never from what the implementation did with it
+func reservedAddress(hexAddr string) bool {
+	a := new(big.Int).SetBytes(ethcommon.HexToAddress(hexAddr).Bytes())
+	if !a.IsUint64() {
+		return false
+	}
+	switch v := a.Uint64(); {
+	case v >= 1 && v <= 9:
+		return true
+	case v == 0x100 || v == 0x400 || v == 0x801 || v == 0x802 || v == 0x804:
+		return true
+	}
+	return false
 }
 
 var extContracts = []string{
@@ -197,13 +228,17 @@ func (g *genState) importedGenesis() {
 	weights := []uint32{0, 1, 1, 2, 3, 7, 1 << 31, 1<<32 - 1, 1 << 30}
 	for t := 1; t <= nt; t++ {
 		adm := g.user()
-		method := "native"
+		method, contract := "native", ""
 		if r.Chance(8) {
 			method = "weird"
+		} else if r.Chance(15) {
+			// several weighted recipients paid through a token contract that is not the module's
+			method = "mintable_contract"
+			contract = append([]string{"", "zz"}, foreignContracts...)[r.Intn(len(foreignContracts)+2)]
 		}
 		denom := tenantDenoms[r.Intn(2)]
 		period := uint64(1 + r.Intn(6))
-		g.h.Genesis.Tenants = append(g.h.Genesis.Tenants, GenTenant{Id: uint64(t), Admins: []int{adm}, Denom: denom, Period: period, Method: method})
+		g.h.Genesis.Tenants = append(g.h.Genesis.Tenants, GenTenant{Id: uint64(t), Admins: []int{adm}, Denom: denom, Period: period, Method: method, Contract: contract})
 		g.tenants = append(g.tenants, genTenant{id: uint64(t), admins: []int{adm}, denom: denom, period: period})
 		nrec := 1 + r.Intn(4)
 		id := uint64(r.Intn(3))
@@ -316,6 +351,15 @@ func (g *genState) settlementMsg() *Msg {
 			kind = "create_tenant_mc"
 		}
 		m := &Msg{Kind: kind, Sender: g.userFor(uint64(len(g.tenants) + 1)), Denom: denom, Period: g.period()}
+		if kind == "create_tenant_mc" && r.Chance(30) {
+			// the tenant names its own token contract: any address will do for the module, among them the
+			// addresses the EVM reserves (precompiles) and addresses that hold no code
+			m.Contract = foreignContracts[r.Intn(len(foreignContracts))]
+			m.Period = uint64(1 + r.Intn(3))
+			if g.p.Adversarial && r.Chance(10) {
+				m.Contract = []string{"0x12", "zz", "0x", "0X0000000000000000000000000000000000000001"}[r.Intn(4)]
+			}
+		}
 		if g.p.Adversarial && r.Chance(5) {
 			m.Period = 0
 		}
@@ -368,6 +412,10 @@ func (g *genState) settlementMsg() *Msg {
 			if g.p.Adversarial && r.Chance(8) {
 				m.Contract = []string{"0x0000000000000000000000000000000000000000", "0x12", "zz", ""}[r.Intn(4)]
 			}
+		}
+		if m.Chain == ChainID && (g.p.Adversarial || g.p.Mint) && r.Chance(12) {
+			// an NFT "contract" on this chain that is an address the EVM reserves, or one without code
+			m.Contract = foreignContracts[r.Intn(len(foreignContracts))]
 		}
 		g.recs = append(g.recs, &pendRec{tid: t.id, req: req, chain: m.Chain, contract: m.Contract, tok: m.Tok, created: g.height, external: m.Chain != ChainID})
 		return m
